@@ -281,7 +281,7 @@ impl<'a, 'b> G<'a, 'b> {
                     let kind = if self.t.flip() {
                         FailKind::Trigger(self.t.pick(&["boom", "bad thing happened", "x", "cost ${v}", "50% off", "a#b"]).to_string())
                     } else {
-                        FailKind::Library(self.t.pick(&["array_get nohandle 0", "array_pop nohandle", "substring abc 9", "map_get", "array_length nohandle", "calc", "array_join nohandle ,"]).to_string())
+                        FailKind::Library(self.t.pick(&["array_get nohandle 0", "array_pop nohandle", "substring abc 9", "map_get", "array_length nohandle", "calc", "array_join nohandle ,", "assert_error planted-assert-error", "assert_error"]).to_string())
                     };
                     Stmt::Fail { out, kind, id }
                 }
